@@ -23,6 +23,10 @@ func (keyExchange *KeyExchange) Marshal() ([]byte, error) {
 }
 
 func (keyExchange *KeyExchange) Unmarshal(b []byte) error {
+	if len(b) == 0 {
+		return errors.Errorf("KeyExchange: No sufficient bytes to decode next key exchange data")
+	}
+
 	if len(b) > 0 {
 		// bounds checking
 		if len(b) <= 4 {
